@@ -9,7 +9,11 @@ code with fixed_format_file.py; the column layout comes from the caller.
 
 
 def fE(v, w, d, style='E'):
-    """Fortran Ew.d (style 'E'), 1PEw.d (style '1P') or python-like lower-case (style 'e')."""
+    """Fortran Ew.d (style 'E'), Dw.d (style 'D': the same with the letter D), 1PEw.d (style '1P') or python-like
+    lower-case (style 'e')."""
+    letter = 'E'
+    if style == 'D':
+        style, letter = 'E', 'D' 
     if v is None:
         return ' ' * w
     if style == 'e':
@@ -33,7 +37,7 @@ def fE(v, w, d, style='E'):
     else:
         body = mant[0] + '.' + mant[1:] if v != 0 else '0.' + '0' * (d - 1)
     if abs(ex) < 100:
-        es = 'E%+03d' % ex
+        es = '%s%+03d' % (letter, ex)
     else:
         es = '%+04d' % ex                      # exponent letter dropped
     s = ('-' if neg else '') + body + es
